@@ -159,7 +159,7 @@ package lexer
 //@   ensures numberEnd(s.Body, start) < 0 ==> result1 != nil
 
 //@ func char2hex
-//@   props C03
+//@   props C03 C08
 //@   assigns nothing
 //@   nopanic
 //@   ensures '0' <= a && a <= '9' ==> result == a - '0'
@@ -196,7 +196,7 @@ package lexer
 //@ }
 
 //@ func uniCharCode
-//@   props C03
+//@   props C03 C08
 //@   assigns nothing
 //@   nopanic
 //@   requires 0 <= a && a <= 255 && 0 <= b && b <= 255 && 0 <= c && c <= 255 && 0 <= d && d <= 255
